@@ -144,7 +144,7 @@ Definition hash_hdrs (hs : list (Z * Z)) : Z :=
 Definition has_cookie (hs : list (Z * Z)) : Z := zbool (existsb (fun kv => fst kv =? cookie_key) hs).
 
 (* observables: [hijacked; status; invocations; body length; body hash; number and hash of the handler's headers
-   delivered; Set-Cookie present] *)
+   delivered; Set-Cookie present; number of Flush calls that reached the connection's own writer] *)
 Definition exchange (op : list Z) : list Z :=
   match op with
   | nl :: r =>
@@ -154,7 +154,7 @@ Definition exchange (op : list Z) : list Z :=
       let '(tr, n) := serve st c h in
       let v := client_view tr in
       [zbool (v_hijacked v); v_status v; n; Z.of_nat (length (v_body v)); hash_bytes (v_body v);
-       Z.of_nat (length (filter (fun kv => fst kv <? 1000) (v_hdrs v))); hash_hdrs (v_hdrs v); has_cookie (v_hdrs v)]
+       Z.of_nat (length (filter (fun kv => fst kv <? 1000) (v_hdrs v))); hash_hdrs (v_hdrs v); has_cookie (v_hdrs v); v_flushes v]
   | [] => []
   end.
 
